@@ -1,10 +1,61 @@
-import RgVerif.Model.Sx
+import RgVerif.Spec.BlockSpec
 namespace RgVerif.Driver.C08
-open RgVerif
+open RgVerif RgVerif.BufWriter RgVerif.BlockSpec
 
-/-- Request handler of property C08: `cmd` is the first token of the line, `args` the rest. -/
+/-
+Requests (SEP = hex bytes | none; the empty separator of --heading is `-`)
+  c08.par  SEP (blocks hex…)          -> hex   output of search_parallel when the lock order is `blocks`
+  c08.seq  SEP TERM (blocks hex…)     -> hex   output of search over `blocks` in traversal order
+  c08.join SEP TERM (blocks hex…)     -> hex   contract: non-empty blocks joined by SEP++TERM
+  c08.files (blocks hex…)             -> hex   files_parallel
+  c08.threads SORT ONEFILE LOW AVAIL  -> n     (LOW = - | n)
+  c08.filesep MODE HEADING CTX SEP    -> SEP   (MODE = standard | other)
+  c08.guard SEP TERM                  -> 0|1   guard of theorem C08
+-/
+
+def parseSep : Sx → Option (Option Bytes)
+  | .atom "none" => some none
+  | x => (x.bytes?).map some
+
+def showSep : Option Bytes → String
+  | none => "none"
+  | some s => toHex s
+
+def parseBlocks : Sx → Option (List Bytes)
+  | .list (.atom "blocks" :: bs) => bs.mapM Sx.bytes?
+  | _ => none
+
 def handle (cmd : String) (args : List Sx) : String :=
   match cmd, args with
+  | "c08.par", [sep, bl] =>
+    match parseSep sep, parseBlocks bl with
+    | some sep, some bl => toHex (outPar sep bl)
+    | _, _ => "bad-op"
+  | "c08.seq", [sep, term, bl] =>
+    match parseSep sep, term.bytes?, parseBlocks bl with
+    | some sep, some term, some bl => toHex (outSeq sep term bl)
+    | _, _, _ => "bad-op"
+  | "c08.join", [sep, term, bl] =>
+    match parseSep sep, term.bytes?, parseBlocks bl with
+    | some sep, some term, some bl => toHex (joinSep (sepLine sep term) (nonempty bl))
+    | _, _, _ => "bad-op"
+  | "c08.files", [bl] =>
+    match parseBlocks bl with
+    | some bl => toHex (outFilesPar bl)
+    | none => "bad-op"
+  | "c08.threads", [s, o, low, avail] =>
+    match s.bool?, o.bool?, (match low with | .atom "-" => some none | x => (x.nat?).map some), avail.nat? with
+    | some s, some o, some low, some avail => toString (threads s o low avail)
+    | _, _, _, _ => "bad-op"
+  | "c08.filesep", [mode, heading, ctx, sep] =>
+    match (match mode with | .atom "standard" => some OutMode.standard | .atom "other" => some OutMode.other | _ => none),
+          heading.bool?, ctx.bool?, parseSep sep with
+    | some mode, some h, some c, some sep => showSep (fileSeparator mode h c sep)
+    | _, _, _, _ => "bad-op"
+  | "c08.guard", [sep, term] =>
+    match parseSep sep, term.bytes? with
+    | some sep, some term => if sep == none || term == [10] then "1" else "0"
+    | _, _ => "bad-op"
   | _, _ => "bad-op"
 
 end RgVerif.Driver.C08
